@@ -199,7 +199,10 @@ CastBorrow(x, op, req, m, a) ==
           /\ last' = L("ret", EffRet(m, pay[i].val, a))
   /\ UNCHANGED <<h, cnt, leaked, nextInst, stack>> /\ Keep
 
-(* releasing what a container owns: the instance (if owning) once, the context once *)
+(* releasing what a container owns: the instance (if owning) once, the context once - IN THIS ORDER: when the object   *)
+(* is the last holder of the context, the instance's destructor still runs while the context (the loaded library) is *)
+(* alive.  One action here; the adapter observes the order inside the step (a payload destructor that finds a        *)
+(* context destructor of the same step already run is reported as a context divergence).                             *)
 ReleaseContainer(x) ==
   /\ pay' = IF Owning(h[x].kind) THEN DropPay(pay, h[x].inst) ELSE pay
   /\ Rel(h[x].ctx)
